@@ -145,14 +145,19 @@ class Program:
         r = self._lookup(key)
         return r
 
-    def _pick(self, c, const):
-        for f in c:
-            if f.is_const == const: return f
-        return c[0]
+    def _pick(self, c, const, crate=None, key=None):
+        cands = [f for f in c if f.is_const == const] or list(c)
+        if crate is not None:
+            same = [f for f in cands if f.crate == crate]
+            if same: cands = same
+        if key is not None:
+            exact = [f for f in cands if strip_generics(f.name) == key]
+            if exact: cands = exact
+        return cands[0]
 
-    def lookup_kind(self, key, const):
+    def lookup_kind(self, key, const, crate=None):
         c = self.index.get(key)
-        if c and len(c) > 1: return self._pick(c, const)
+        if c and len(c) > 1: return self._pick(c, const, crate, key)
         return self._lookup(key)
 
     def _lookup(self, key):
@@ -259,6 +264,8 @@ def norm_type(t):
     """type as used in lookup keys: last path segment for plain paths, kept as is for &T, [T], (..), dyn"""
     t = t.strip()
     if re.match(r"^[\w:]+$", t): return t.split("::")[-1]
+    m = re.match(r"^(&)?(?:mut )?\[.*\]$", t)
+    if m: return ("&" if m.group(1) else "") + "[]"
     return t
 
 
@@ -428,6 +435,7 @@ class Interp:
     def __init__(self, prog, world, summaries):
         self.P, self.W, self.S = prog, world, summaries
         self.depth = 0
+        self.cur_crate = None
         self.trace = None
         self.fn_used = set()
 
@@ -512,6 +520,8 @@ class Interp:
         if k == "move":
             cell, path = self.resolve(frame, op[1])
             return self.read(cell, path)
+        if k == "fnitem":
+            return FnItem(op[1], strip_generics(op[1]))
         return self.const(op[1])
 
     def const(self, c):
@@ -851,7 +861,7 @@ class Interp:
                     if s is not None: return s(self, *args)
                     raise Unsupported(f"callee {key}   [{callee}] (receiver {self.runtime_type(args[0]) if args else None})")
                 return self.run(f, args)
-        f = self.P.lookup_kind(key, False)
+        f = self.P.lookup_kind(key, False, self.cur_crate)
         if f is None:
             # summaries keyed by a suffix of the path (e.g. core::str::<impl str>::len)
             segs = key.split("::")
@@ -1020,6 +1030,7 @@ class Interp:
         for (n, _), a in zip(fn.args, args): frame[n].v = a
         bb = 0
         self.depth += 1
+        prev_crate = self.cur_crate; self.cur_crate = fn.crate
         if self.depth > 3000:
             raise StepLimit("call depth > 3000")
         maxs = W.ex.max_steps
@@ -1087,6 +1098,7 @@ class Interp:
             raise
         finally:
             self.depth -= 1
+            self.cur_crate = prev_crate
 
     def switch(self, v, targets, other, ty):
         if isinstance(v, bool): v = int(v)
